@@ -151,7 +151,7 @@ package engine
 //@ frame loadWrites = runtime.runWrites, ast.CallExpr.Grok, ast.CallExpr.PrivateData, elemsof(*ast.CallExpr),
 //@ | alltype(searchPath), alltype(param), elemsof(string), maptype(map[string]struct{}), maptype(map[string]*runtime.Script), maptype(map[string]error)
 
-//@ framesweep[C16] loadWrites dfs EngineCallRefLinkAndCheck getParamRefScript (*searchPath).Push (*searchPath).Pop
+//@ framesweep[C16,C15] loadWrites dfs EngineCallRefLinkAndCheck getParamRefScript (*searchPath).Push (*searchPath).Pop
 
 // ---- C20: script discovery --------------------------------------------------------------------
 //@ extern path/filepath.Ext
